@@ -338,6 +338,18 @@ class Stdlib:
         raise Unsupported(f'unary {op} on {type(v).__name__}', node)
 
     def compare(self, I, op, a, b, node):
+        if isinstance(a, SObj) and a.cls is not None and isinstance(b, SObj):
+            dunder = {'>': '__gt__', '<': '__lt__', '>=': '__ge__', '<=': '__le__', '==': '__eq__', '!=': '__ne__'}[op]
+            refl = {'>': '__lt__', '<': '__gt__', '>=': '__le__', '<=': '__ge__', '==': '__eq__', '!=': '__ne__'}[op]
+            m = a.cls.find_method(dunder)
+            if m is not None:
+                return I.call_repo(m, [b], {}, self_obj=a)
+            m = b.cls.find_method(refl) if b.cls is not None else None
+            if m is not None:
+                return I.call_repo(m, [a], {}, self_obj=b)
+            if op == '!=' and a.cls.find_method('__eq__') is not None:
+                r = I.call_repo(a.cls.find_method('__eq__'), [b], {}, self_obj=a)
+                return Not(r) if is_sym(r) else (not r)
         if isinstance(a, EnumMember) or isinstance(b, EnumMember):
             r = self.key_eq(a, b) and isinstance(a, EnumMember) == isinstance(b, EnumMember)
             if isinstance(a, EnumMember) and isinstance(b, EnumMember):
